@@ -32,7 +32,7 @@ def gen(rnd):
             if budget[0] <= 0:
                 break
             budget[0] -= 1
-            kind = rnd.choice(["plain", "plain", "dead", "rep", "ins", "cnt", "wrap", "fwd", "addarg", "holder"])
+            kind = rnd.choice(["plain", "plain", "dead", "rep", "ins", "cnt", "wrap", "fwd", "addarg", "holder", "late"])
             regions = []
             if kind in ("wrap", "holder", "addarg") or (kind in ("dead", "rep") and rnd.random() < 0.5):
                 if depth < 3:
@@ -253,11 +253,26 @@ def check_case(seed, case, cfg_index, perturb):
     # keep erased ops reachable for the ancestor test: record their parent chain at removal time
     removed_subtrees = {}
     listener.operation_removal_handler.append(lambda o: removed_subtrees.update({id(x): x for x in o.walk()}))
+    # half of the cases run with a post-walk function (as canonicalize does with region_dce): after each sweep it turns ONE op of kind "late"
+    # (which no pattern matches) into kind "rep" (which the Replace pattern rewrites) and reports it - a recursive walker must sweep again
+    use_post = random.Random(f"{seed}/{case}/post").random() < 0.5
+
+    def post_walk(region, lst):
+        from xdsl.dialects.builtin import StringAttr
+
+        for o in region.walk():
+            k = o.attributes.get("kind")
+            if k is not None and k.data == "late":
+                o.attributes["kind"] = StringAttr("rep")
+                lst.handle_operation_modification(o)
+                return True
+        return False
+
     walker = PatternRewriteWalker(GreedyRewritePatternApplier(pats, dce_enabled=False), apply_recursively=rec, walk_reverse=rev,
-                                  walk_regions_first=rfirst, listener=listener)
+                                  walk_regions_first=rfirst, listener=listener, post_walk_func=post_walk if use_post else None)
     if perturb:
         walker._worklist = perturbed_worklist(random.Random(f"{seed}/{case}/wl"))  # noqa: SLF001  (the hook named by the property)
-    inputs = {"seed": seed, "case": case, "recursive": rec, "reverse": rev, "regions_first": rfirst, "perturbed": perturb}
+    inputs = {"seed": seed, "case": case, "recursive": rec, "reverse": rev, "regions_first": rfirst, "perturbed": perturb, "post_walk_func": use_post}
 
     def fail(key, what):
         return {"key": key, "what": what, "inputs": inputs, "program": str(build(spec))[:1500]}
@@ -308,8 +323,8 @@ def explore(tier, seed, shard=0, shards=1):
                     seen.add(f["key"])
                     fails.append(f)
     return {"cases": cases, "failures": fails, "exhaustive": False, "nontrivial": cases,
-            "bound": f"{n} seeded nested test-dialect modules (<= 13 ops, nesting depth <= 3; 10 op kinds) x 7 terminating patterns in seeded order x 8 walk "
-                     "configurations x {stock LIFO worklist, worklist popping a seeded-random member}"}
+            "bound": f"{n} seeded nested test-dialect modules (<= 13 ops, nesting depth <= 3; 11 op kinds) x 7 terminating patterns in seeded order x 8 walk "
+                     "configurations x {stock LIFO worklist, worklist popping a seeded-random member}; half of the modules with a post-walk function that enables a pattern after a sweep"}
 
 
 SHARDS = 8
